@@ -499,11 +499,32 @@ func runC07(r *Report) {
 			})
 			// now.Add(Duration(pttl) * Millisecond).UnixMilli() with now := time.Now() in the commit region
 			okV := false
+			// the conversion may be a small pure helper `f(now, pttl)` of the package: use its body with
+			// the call's arguments
+			bind := map[ssa.Value]ssa.Value{}
+			if hc, ok := arg.(*ssa.Call); ok {
+				if h := hc.Call.StaticCallee(); h != nil && h.Blocks != nil && len(h.Blocks) == 1 && h.Pkg == fn.Pkg && !isExportedName(h.Name()) && h.Signature.Recv() == nil {
+					if ret, isr := h.Blocks[0].Instrs[len(h.Blocks[0].Instrs)-1].(*ssa.Return); isr && len(ret.Results) == 1 {
+						for k, prm := range h.Params {
+							if k < len(hc.Call.Args) {
+								bind[prm] = hc.Call.Args[k]
+							}
+						}
+						arg = ret.Results[0]
+					}
+				}
+			}
+			sub := func(v ssa.Value) ssa.Value {
+				if b, ok := bind[v]; ok {
+					return b
+				}
+				return v
+			}
 			if um, ok := arg.(*ssa.Call); ok && CalleeName(um) == "time.(Time).UnixMilli" {
 				if add, ok := um.Call.Args[0].(*ssa.Call); ok && CalleeName(add) == "time.(Time).Add" {
-					nows, _, okN := paramArgs(p, add.Call.Args[0])
+					nows, _, okN := paramArgs(p, sub(add.Call.Args[0]))
 					d := Desc(add.Call.Args[1])
-					okV = okN && len(nows) > 0 && pttl != nil && DependsOn(add.Call.Args[1], func(v ssa.Value) bool { return v == pttl || Same(v, pttl) }) && strings.Contains(d, "* 1000000")
+					okV = okN && len(nows) > 0 && pttl != nil && DependsOn(add.Call.Args[1], func(v ssa.Value) bool { v = sub(v); return v == pttl || Same(v, pttl) }) && strings.Contains(d, "* 1000000")
 					for _, nv := range nows {
 						nowc, isNow := nv.(*ssa.Call)
 						if !isNow || CalleeName(nowc) != "time.Now" || nowc.Parent() != fn {
